@@ -47,6 +47,13 @@ def _run(c, prop):
         c.cov['traces_validated_against_impl'] += pr['completed']
         c.cov['evaluations'] += pr['executed']
         c.cov['samples'] += pr['samples'][:1]
+    for want, mode in (('C04', 'pubunsubprobe'), ('C05', 'connectcloseprobe')):
+        if prop == want:
+            pr = c.harness(binp, mode, {'n': 3 if quick else 10}, timeout=120)
+            c.absorb(pr)
+            c.cov[mode] = {'completed': pr['completed'], 'counters': pr['counters']}
+            c.cov['traces_validated_against_impl'] += pr['completed']
+            c.cov['evaluations'] += pr['executed']
     c.cov['rule'] = ('behaviours of SubLifecycle.tla from TLC -simulate (operation set and sync/async subscribe callback chosen in Init), each replayed on a real node+client: '
                      'one model step releases one real goroutine from the natural gate / hook it is parked at and follows it to the next; state projection compared after every step; '
                      'non-trivial = complete behaviour ending quiescent with all monitors evaluated, distinct by (ops, step list)')
